@@ -34,6 +34,10 @@ package main
 // `if err != nil { return err }; return nil` is `return err`).  The output does not depend on whether
 // go/types could resolve the import of pkg/cast (it cannot when the extractor runs outside the module):
 // the few places that need a type use the syntax when the checker recorded nothing.
+//
+// rowfacts.go and flow.go run the same executor on row.go and on template.go, exporter.go, importer.go,
+// streamer.go; what they need beyond the above (loops, calls of function values, builtins, sorted type switches,
+// map and list accesses) comes in through the hooks and flags of valX, all unset here.
 
 import (
 	"fmt"
@@ -49,7 +53,7 @@ import (
 // trees
 
 type vtree struct {
-	kind   string // "call" | "if" | "leaf" | "unknown"
+	kind   string // "call" | "if" | "leaf" | "unknown" | "loop" (rowfacts.go only: cond = header, then = body, next = what follows)
 	id     int    // call
 	fn     string
 	args   []string
@@ -88,6 +92,8 @@ func (t *vtree) String() string {
 		return fmt.Sprintf("call#%d %s(%s); %s", t.id, t.fn, strings.Join(t.args, ","), t.next)
 	case "if":
 		return fmt.Sprintf("if %s {%s} else {%s}", t.cond, t.then, t.els)
+	case "loop":
+		return fmt.Sprintf("loop#%d %s {%s}; %s", t.id, t.cond, t.then, t.next)
 	case "leaf":
 		s := "return [" + strings.Join(t.rets, ",") + "]"
 		if t.fields != nil {
@@ -107,6 +113,8 @@ func (t *vtree) merged() *vtree {
 	switch t.kind {
 	case "call":
 		t.next = t.next.merged()
+	case "loop":
+		t.then, t.next = t.then.merged(), t.next.merged()
 	case "if":
 		t.then, t.els = t.then.merged(), t.els.merged()
 		if strings.HasPrefix(t.cond, "isnil(err#") && t.then.kind == "leaf" && t.els.kind == "leaf" &&
@@ -188,6 +196,17 @@ type valX struct {
 	cellType string            // name of the cell struct ("value")
 	depth    int               // nesting of one-expression helpers being evaluated
 	cur      *vframe           // the frame of the statement being executed (for calls inlined inside conditions)
+
+	// extension points of rowfacts.go (all nil while the value table is computed): an expression, a
+	// statement or an assignment target the executor above does not know is offered to them first.
+	evalHook   func(e ast.Expr, st *vstate, pend *[]*vtree) (sym string, ok, handled bool)
+	stmtHook   func(s ast.Stmt, rest []ast.Stmt, st *vstate, fr *vframe) *vtree
+	assignHook func(lhs ast.Expr, sym string, st *vstate) (ok, handled bool)
+
+	// extension points used by flow.go (all nil / false for Gen/ValueTable.lean); stmtHook above is shared
+	callHook   func(n *ast.CallExpr, st *vstate, pend *[]*vtree, want int) (rs []string, ok bool, handled bool) // sees every call that is not inlined first
+	wrapCalls  bool                                                                                             // fmt.Errorf arguments may be calls (they become nodes of the tree)
+	funcValues bool                                                                                             // a function of the package used as a value is the symbol func:<name>
 }
 
 func vfuncKey(fd *ast.FuncDecl) string {
@@ -322,6 +341,11 @@ func (x *valX) eval(e ast.Expr, st *vstate, pend *[]*vtree) (string, bool) {
 			return x.constSym(tv), true
 		}
 	}
+	if x.evalHook != nil {
+		if s, ok, handled := x.evalHook(e, st, pend); handled {
+			return s, ok
+		}
+	}
 	switch n := e.(type) {
 	case *ast.Ident:
 		obj := x.p.info.Uses[n]
@@ -341,6 +365,9 @@ func (x *valX) eval(e ast.Expr, st *vstate, pend *[]*vtree) (string, bool) {
 			if v.Parent() == x.p.pkg.Scope() {
 				return "G." + v.Name(), true
 			}
+		}
+		if fo, ok := obj.(*types.Func); ok && x.funcValues && fo.Pkg() == x.p.pkg {
+			return "func:" + fo.Name(), true
 		}
 		return "", false
 	case *ast.SelectorExpr:
@@ -484,7 +511,7 @@ func (x *valX) errorf(n *ast.CallExpr, st *vstate, pend *[]*vtree) (string, bool
 	var syms []string
 	for _, a := range n.Args[1:] {
 		s, ok := x.eval(a, st, pend)
-		if !ok || len(*pend) != before {
+		if !ok || (len(*pend) != before && !x.wrapCalls) {
 			return "", false
 		}
 		syms = append(syms, s)
@@ -516,6 +543,11 @@ func (x *valX) errorf(n *ast.CallExpr, st *vstate, pend *[]*vtree) (string, bool
 // evalCall evaluates a call that is not inlined: a conversion, fmt.Errorf, or an opaque call recorded as a
 // node of the tree. `want` is the number of results the context needs (-1: whatever the call has).
 func (x *valX) evalCall(n *ast.CallExpr, st *vstate, pend *[]*vtree, want int) ([]string, bool) {
+	if x.callHook != nil {
+		if rs, ok, handled := x.callHook(n, st, pend, want); handled {
+			return rs, ok
+		}
+	}
 	if tv, ok := x.p.info.Types[n.Fun]; ok && tv.IsType() {
 		if len(n.Args) != 1 {
 			return nil, false
@@ -564,7 +596,7 @@ func (x *valX) evalCall(n *ast.CallExpr, st *vstate, pend *[]*vtree, want int) (
 		args = append(args, s)
 	}
 	// a one-expression helper of the package (`func f(…) T { return e }`, e.g. an error constructor) is its expression
-	if id, ok := ast.Unparen(n.Fun).(*ast.Ident); ok && want == 1 && x.depth < 4 {
+	if id, ok := ast.Unparen(n.Fun).(*ast.Ident); ok && want == 1 && x.depth < 4 && !x.noInline[id.Name] {
 		if fd := x.funcs[id.Name]; fd != nil && fd.Recv == nil && len(fd.Body.List) == 1 && countResults(fd) == 1 {
 			if r, ok := fd.Body.List[0].(*ast.ReturnStmt); ok && len(r.Results) == 1 {
 				i, bound := 0, true
@@ -744,6 +776,11 @@ func hasBranchStmt(ss []ast.Stmt) bool {
 }
 
 func (x *valX) assign(lhs ast.Expr, sym string, st *vstate) bool {
+	if x.assignHook != nil {
+		if ok, handled := x.assignHook(lhs, sym, st); handled {
+			return ok
+		}
+	}
 	switch l := ast.Unparen(lhs).(type) {
 	case *ast.Ident:
 		if l.Name == "_" {
@@ -908,6 +945,11 @@ func (x *valX) exec(stmts []ast.Stmt, st *vstate, fr *vframe) *vtree {
 	s, rest := stmts[0], stmts[1:]
 	var pend []*vtree
 	x.cur = fr
+	if x.stmtHook != nil {
+		if t := x.stmtHook(s, rest, st, fr); t != nil {
+			return t
+		}
+	}
 	switch n := s.(type) {
 	case *ast.BlockStmt:
 		return x.exec(vconcat(n.List, rest), st, fr)
